@@ -8,7 +8,7 @@ AppendLeft / AppendRight / Remove, any plugins (any name, any subset of stage in
 `V` ranges over all verdict assignments; `id` over all routes (registered or not).
 -/
 import Teleport.Lemmas.Plugin
-import Teleport.Lemmas.SrcFlow
+import Teleport.Lemmas.SrcPaths
 import Teleport.Gen.Stages
 namespace Teleport
 namespace C09
@@ -440,7 +440,8 @@ on two probe configurations and its hook firings are read off, nothing is restat
 the Go spelling of the sixteen stage names. -/
 
 section TieA
-open SrcFlow
+open SrcPaths
+open SrcFlow (dedup)
 
 /-- Go name of the stage function (`func (p *pluginSingleContainer) <name>`). -/
 def goName : Stage → String
@@ -473,34 +474,35 @@ def setupStages : List String := ["postListen", "postNewPeer", "postReg", "preNe
 
 /-- one per-message stage call of the code: the stage, the container it EFFECTIVELY runs on
     (a call on the context's current container resolves to the last container switch before it) and
-    whether the call site lets the verdict veto. -/
+    whether the call site lets the verdict veto (some path of the function tests it). -/
 abbrev Site := Stage × String × Option Bool
 
-/-- read a composed flow: `setcont` events switch the context's container, stage calls on `ctx` use
-    the current one, stage calls on the peer's container are `global`. -/
-def sitesFrom (cur : String) : List Ev → List Site
+/-- read a composed sequence of annotated spine events: `setcont` events switch the context's
+    container, stage calls on `ctx` use the current one, stage calls on the peer's container are `global`. -/
+def sitesFrom (cur : String) : List (PEv × Bool) → List Site
   | [] => []
-  | e :: r =>
+  | (e, v) :: r =>
     if e.kind == "setcont" then sitesFrom e.name r
     else if e.kind == "stage" then
       match stageOfName e.name with
-      | some s => (s, (if e.x == "ctx" then cur else e.x), vetoUse e.use) :: sitesFrom cur r
+      | some s => (s, (if e.detail == "ctx" then cur else e.detail), some v) :: sitesFrom cur r
       | none => sitesFrom cur r
     else sitesFrom cur r
 
-def sites (f : List Ev) : List Site := sitesFrom "unset" f
+def sites (f : List (PEv × Bool)) : List Site := sitesFrom "unset" f
 
 /-- the container switches of `binding` (it runs synchronously inside `ReadMessage`, before `bind*`). -/
-def bindingSwitches : List Ev := Gen.stages_handlerCtx_binding.filter fun e => e.kind == "setcont"
+def bindingSwitches : List (PEv × Bool) := (annot Gen.spaths_handlerCtx_binding).filter fun e => e.1.kind == "setcont"
 
 /-- the code paths of one message, composed as the code composes them: the read loop, `binding`,
-    the `bind*` function of the message type, the `handle*` function of the message type. -/
-def codeCallee : List Ev :=
-  Gen.stages_session_startReadAndHandle ++ bindingSwitches ++ Gen.stages_handlerCtx_bindCall ++ Gen.stages_handlerCtx_handleCall
-def codePushee : List Ev :=
-  Gen.stages_session_startReadAndHandle ++ bindingSwitches ++ Gen.stages_handlerCtx_bindPush ++ Gen.stages_handlerCtx_handlePush
-def codeCallerRead : List Ev :=
-  Gen.stages_session_startReadAndHandle ++ bindingSwitches ++ Gen.stages_handlerCtx_bindReply ++ Gen.stages_handlerCtx_handleReply
+    the `bind*` function of the message type, the `handle*` function of the message type — of each
+    function its spine (the longest stage sequence; every path runs a sub-sequence of it). -/
+def codeCallee : List (PEv × Bool) :=
+  annot Gen.spaths_session_startReadAndHandle ++ bindingSwitches ++ annot Gen.spaths_handlerCtx_bindCall ++ annot Gen.spaths_handlerCtx_handleCall
+def codePushee : List (PEv × Bool) :=
+  annot Gen.spaths_session_startReadAndHandle ++ bindingSwitches ++ annot Gen.spaths_handlerCtx_bindPush ++ annot Gen.spaths_handlerCtx_handlePush
+def codeCallerRead : List (PEv × Bool) :=
+  annot Gen.spaths_session_startReadAndHandle ++ bindingSwitches ++ annot Gen.spaths_handlerCtx_bindReply ++ annot Gen.spaths_handlerCtx_handleReply
 
 /-- probe 1: one global plugin that implements every stage, one CALL route and one PUSH route
     without plugins of their own: a verdict at a stage changes the outcome of the exchange iff the
@@ -535,62 +537,100 @@ def modelCallerRead : List Site :=
 def stageContOf (l : List Site) : List (Stage × String) := l.map fun s => (s.1, s.2.1)
 def stageVetoOf (l : List Site) : List (Stage × Option Bool) := l.map fun s => (s.1, s.2.2)
 
-/-- every stage call of a flow names a stage the model knows (per-message or connection level). -/
-def knownStages (f : List Ev) : Bool :=
-  f.all fun e => e.kind != "stage" || (stageOfName e.name).isSome || connStages.contains e.name
+/-- every stage call of a path names a stage the model knows (per-message or connection level). -/
+def knownStages (ps : List Path) : Bool :=
+  ps.all fun p => p.all fun e => e.kind != "stage" || (stageOfName e.name).isSome || connStages.contains e.name
 
-def watchedFlows : List (List Ev) :=
-  [Gen.stages_session_AsyncCall, Gen.stages_session_Push, Gen.stages_session_startReadAndHandle,
-   Gen.stages_handlerCtx_binding, Gen.stages_handlerCtx_bindCall, Gen.stages_handlerCtx_bindPush,
-   Gen.stages_handlerCtx_bindReply, Gen.stages_handlerCtx_handleCall, Gen.stages_handlerCtx_handlePush,
-   Gen.stages_handlerCtx_handleReply, Gen.stages_peer_ServeConn, Gen.stages_peer_serveListener_accept,
-   Gen.stages_peer_Dial, Gen.stages_peer_Dial_redial, Gen.stages_session_closeLocked,
-   Gen.stages_session_readDisconnected]
+def watchedPaths : List (List Path) :=
+  [Gen.spaths_session_AsyncCall, Gen.spaths_session_Push, Gen.spaths_session_startReadAndHandle,
+   Gen.spaths_handlerCtx_binding, Gen.spaths_handlerCtx_bindCall, Gen.spaths_handlerCtx_bindPush,
+   Gen.spaths_handlerCtx_bindReply, Gen.spaths_handlerCtx_handleCall, Gen.spaths_handlerCtx_handlePush,
+   Gen.spaths_handlerCtx_handleReply, Gen.spaths_peer_ServeConn, Gen.spaths_peer_serveListener_accept,
+   Gen.spaths_peer_Dial, Gen.spaths_peer_Dial_redial, Gen.spaths_session_closeLocked,
+   Gen.spaths_session_readDisconnected]
 
-/-- the stage calls of a flow: (stage function, container class, use class). -/
-def stageRows (f : List Ev) : List (String × String × String) :=
-  (f.filter fun e => e.kind == "stage").map fun e => (e.name, e.x, e.use)
+def watchedMissing : List (List String) :=
+  [Gen.spaths_session_AsyncCall_missing, Gen.spaths_session_Push_missing, Gen.spaths_session_startReadAndHandle_missing,
+   Gen.spaths_handlerCtx_binding_missing, Gen.spaths_handlerCtx_bindCall_missing, Gen.spaths_handlerCtx_bindPush_missing,
+   Gen.spaths_handlerCtx_bindReply_missing, Gen.spaths_handlerCtx_handleCall_missing, Gen.spaths_handlerCtx_handlePush_missing,
+   Gen.spaths_handlerCtx_handleReply_missing]
 
-/-- the handler invocations of a `handle*` flow. -/
-def handlerCalls (f : List Ev) : List Ev := f.filter fun e => e.is "call" "handleFunc" || e.is "call" "unknownHandleFunc"
+def connMissing : List (List String) :=
+  [Gen.spaths_peer_ServeConn_missing, Gen.spaths_peer_serveListener_accept_missing,
+   Gen.spaths_peer_Dial_missing, Gen.spaths_peer_Dial_redial_missing, Gen.spaths_session_closeLocked_missing,
+   Gen.spaths_session_readDisconnected_missing]
+
+/-- the stage calls of a function: (stage function, container class, verdict tested on some path). -/
+def stageRows (ps : List Path) : List (String × String × Bool) :=
+  ((annot ps).filter fun e => e.1.kind == "stage").map fun e => (e.1.name, e.1.detail, e.2)
+
+def isHandler (e : PEv) : Bool := e.is "call" "handleFunc" || e.is "call" "unknownHandleFunc"
+
+/-- keys of a path with the two handler entry points identified. -/
+def hkeys (p : Path) : List String := (body p).map fun e => if isHandler e then "call:handler" else e.key
+
+/-- after a stage verdict that the path found NOT OK, nothing but `allowed` events follow. -/
+def afterFailOnly (allowed : PEv → Bool) (ps : List Path) : Bool :=
+  ps.all fun p => (rest isStageFail p).all allowed
+
+def isReturn (e : PEv) : Bool := e.kind == "return"
 
 /-- **Stage order and containers at the call sites = the model's (tie A).** For the sources as they
-    are now (no fact missing): along each of the five per-message paths — received CALL
-    (`startReadAndHandle` → `binding` → `bindCall` → `handleCall`), received PUSH, received REPLY,
-    `AsyncCall`, `Push` — the per-message stage functions are called in exactly the order in which
-    `Model/Plugin` (`calleeSteps`/`callee`, `pusheeSteps`/`pushee`, `replyReadSteps`/`callerRead`,
+    are now (nothing of the ten per-message functions unplaced): along each of the five per-message
+    paths — received CALL (`startReadAndHandle` → `binding` → `bindCall` → `handleCall`), received PUSH,
+    received REPLY, `AsyncCall`, `Push` — the per-message stage functions are called in exactly the order
+    in which `Model/Plugin` (`calleeSteps`/`callee`, `pusheeSteps`/`pushee`, `replyReadSteps`/`callerRead`,
     `callerWrite`, `pusher`) fires them, and each on the container the model uses: the peer's global
     container up to and including the header stage, the handler's container from the "reset plugin
     container" assignment of `bindCall`/`bindPush` on (the reply-writing stages included), the global
-    one everywhere on the calling side. In addition: `binding` sets the global container before it
-    dispatches to any `bind*`; `preReadHeader` precedes `ReadMessage`; `preWriteCall`/`preWritePush`
-    precede the socket write and `postWriteCall`/`postWritePush` follow it; in `handleCall` the
-    handler runs after `postReadCallBody` (under its OK verdict), before `preWriteReply`, which
-    precedes `writeReply`, which precedes `postWriteReply`; no per-message or connection-level stage
-    function is called anywhere outside the watched functions; every stage function of plugin.go is
-    one the model knows. Swapping two stage calls, calling one on the other container, moving the
-    container switch or adding a stage call elsewhere changes a regenerated list and this theorem
-    no longer checks. -/
+    one everywhere on the calling side. "Order" is a statement about ALL control-flow paths: every
+    path of each function runs a sub-sequence of the function's longest stage sequence
+    (`spineCovers`), and the composed longest sequences are the model's. In addition: `binding`
+    sets the global container first on every path; on every path of the read loop `ReadMessage` comes
+    after an OK `preReadHeader`; the path sets of `AsyncCall` and `Push` are exactly: pre-write stage
+    refused → (`done`,) return; OK, write failed → (`done`,) return, or back to the write after a
+    redial; OK, write OK → post-write stage; in `handleCall` every path runs a sub-sequence of
+    `postReadCallBody`, handler, `preWriteReply`, `writeReply`, `writeReply`, flag, `postWriteReply`, the
+    handler only after an OK `postReadCallBody` (in `handlePush`: `postReadPushBody`); no per-message or
+    connection-level stage function is called anywhere outside the watched functions; every stage
+    function of plugin.go is one the model knows. Swapping two stage calls, calling one on the other
+    container, moving the container switch or adding a stage call elsewhere changes a regenerated
+    path set and this theorem no longer checks. -/
 theorem C09_callsite_order :
-    Gen.stages_missing = [] ∧
+    watchedMissing.all (· == []) = true ∧
+    (watchedPaths.take 10).all spineCovers = true ∧
     stageContOf (sites codeCallee) = stageContOf modelCallee ∧
     stageContOf (sites codePushee) = stageContOf modelPushee ∧
     stageContOf (sites codeCallerRead) = stageContOf modelCallerRead ∧
-    stageContOf (sites Gen.stages_session_AsyncCall) = stageContOf modelCallerWrite ∧
-    stageContOf (sites Gen.stages_session_Push) = stageContOf modelPusher ∧
-    (keys Gen.stages_handlerCtx_binding).head? = some "setcont:global" ∧
-    before "stage:preReadHeader" "call:ReadMessage" (keys Gen.stages_session_startReadAndHandle) = true ∧
-    (keys (mainFlow Gen.stages_session_AsyncCall)) = ["stage:preWriteCall", "call:done", "call:write", "call:done", "stage:postWriteCall"] ∧
-    (keys (mainFlow Gen.stages_session_Push)).filter (· != "setcont:nil") = ["stage:preWritePush", "call:write", "stage:postWritePush"] ∧
-    (keys (mainFlow Gen.stages_handlerCtx_handleCall)) =
-      ["stage:postReadCallBody", "call:unknownHandleFunc", "call:handleFunc", "stage:preWriteReply", "call:writeReply",
-       "call:writeReply", "flag:set", "stage:postWriteReply"] ∧
-    (handlerCalls Gen.stages_handlerCtx_handleCall).all (fun e => e.guards.contains "postReadCallBody().OK()") = true ∧
-    (handlerCalls Gen.stages_handlerCtx_handlePush).all (fun e => e.guards.contains "postReadPushBody() == nil") = true ∧
-    (handlerCalls Gen.stages_handlerCtx_handleCall).length = 2 ∧ (handlerCalls Gen.stages_handlerCtx_handlePush).length = 2 ∧
-    watchedFlows.all knownStages = true ∧
+    stageContOf (sites (annot Gen.spaths_session_AsyncCall)) = stageContOf modelCallerWrite ∧
+    stageContOf (sites (annot Gen.spaths_session_Push)) = stageContOf modelPusher ∧
+    Gen.spaths_handlerCtx_binding.all (fun p => (keys p).head? == some "setcont:global") = true ∧
+    Gen.spaths_session_startReadAndHandle.all
+      (precededBy (fun (e : PEv) => e.is "stage" "preReadHeader" && e.out == "ok") (fun (e : PEv) => e.is "call" "ReadMessage")) = true ∧
+    SrcFlow.sameSet ((live Gen.spaths_session_AsyncCall).map tags)
+      [["stage:preWriteCall=fail", "call:done"], ["stage:preWriteCall=ok", "call:write=fail", "call:done"],
+       ["stage:preWriteCall=ok", "call:write=fail", "goto:back"],
+       ["stage:preWriteCall=ok", "call:write=ok", "stage:postWriteCall"]] = true ∧
+    SrcFlow.sameSet ((live Gen.spaths_session_Push).map fun p => (tags p).filter (· != "setcont:nil"))
+      [["stage:preWritePush=fail"], ["stage:preWritePush=ok", "call:write=fail"],
+       ["stage:preWritePush=ok", "call:write=fail", "goto:back"],
+       ["stage:preWritePush=ok", "call:write=ok", "stage:postWritePush"]] = true ∧
+    Gen.spaths_handlerCtx_handleCall.all (fun p => isSubseq (hkeys p)
+      ["stage:postReadCallBody", "call:handler", "stage:preWriteReply", "call:writeReply",
+       "call:writeReply", "flag:set", "stage:postWriteReply"]) = true ∧
+    Gen.spaths_handlerCtx_handleCall.any (fun p => hkeys p ==
+      ["stage:postReadCallBody", "call:handler", "stage:preWriteReply", "call:writeReply", "flag:set", "stage:postWriteReply"]) = true ∧
+    Gen.spaths_handlerCtx_handleCall.all (fun p => (p.filter fun (e : PEv) => e.is "stage" "preWriteReply").length == 1) = true ∧
+    Gen.spaths_handlerCtx_handleCall.all
+      (precededBy (fun (e : PEv) => e.is "stage" "postReadCallBody" && e.out == "ok") isHandler) = true ∧
+    Gen.spaths_handlerCtx_handlePush.all
+      (precededBy (fun (e : PEv) => e.is "stage" "postReadPushBody" && e.out == "ok") isHandler) = true ∧
+    Gen.spaths_handlerCtx_handleCall.any (fun p => p.any isHandler) = true ∧
+    Gen.spaths_handlerCtx_handlePush.any (fun p => p.any isHandler) = true ∧
+    (watchedPaths.take 10).all knownStages = true ∧
+    Gen.stages_missing = [] ∧
     Gen.stage_unwatched_sites.all (fun p => setupStages.contains p.2) = true ∧
-    sameSet Gen.stage_funcs (Stage.all.map goName ++ connStages ++ setupStages) = true := by
+    SrcFlow.sameSet Gen.stage_funcs (Stage.all.map goName ++ connStages ++ setupStages) = true := by
   decide
 
 /-- non-vacuity: what the two sides of the first conjunct are. -/
@@ -599,27 +639,34 @@ example : stageContOf modelCallee =
      (.postReadCallBody, "handler"), (.preWriteReply, "handler"), (.postWriteReply, "handler")] := by decide
 
 /-- **The vetoing stages are exactly those whose verdict the call site uses (tie A).** Along the
-    five per-message paths, a stage call's result is tested right away — the failing branch
-    returns (`fail-return`) or the code that follows, the handler included, runs only under the OK
-    verdict (`ok-guard`) — exactly for the stages at which a non-OK verdict changes the outcome of
-    the exchange in `Model/Plugin` (everything before the handler on the receiving side,
-    `preWriteCall`/`preWritePush`, and the three reply-reading stages); it is an expression
-    statement whose result is dropped exactly for the stages the model runs through `runAll` /
-    ignores (`preWriteReply`, `postWriteReply`, `postWriteCall`, `postWritePush`). The connection
-    hooks: `postAccept` and `postDial` veto (failing branch returns) at all four call sites,
-    `postDisconnect` is ignored at both. -/
+    five per-message paths, the verdict of a stage call is tested on some control-flow path of the
+    function exactly for the stages at which a non-OK verdict changes the outcome of the exchange
+    in `Model/Plugin` (everything before the handler on the receiving side, `preWriteCall` /
+    `preWritePush`, and the three reply-reading stages) — and for those every path that runs the stage
+    tests it; no path ever tests the verdict of the stages the model runs through `runAll` / ignores
+    (`preWriteReply`, `postWriteReply`, `postWriteCall`, `postWritePush`). What a refusal does: in
+    `bindCall`, `bindPush`, `bindReply` and in the read loop nothing but `return` follows a stage verdict
+    that is not OK; in `handleCall` no handler and no further reading stage follows, only the reply
+    (`preWriteReply`, `writeReply`, flag, `postWriteReply`); in `handlePush` nothing follows. The connection
+    hooks: `postAccept` and `postDial` are tested at all four call sites, `postDisconnect` at neither. -/
 theorem C09_veto_sites :
-    Gen.stages_missing = [] ∧
+    watchedMissing.all (· == []) = true ∧
     stageVetoOf (sites codeCallee) = stageVetoOf modelCallee ∧
     stageVetoOf (sites codePushee) = stageVetoOf modelPushee ∧
     stageVetoOf (sites codeCallerRead) = stageVetoOf modelCallerRead ∧
-    stageVetoOf (sites Gen.stages_session_AsyncCall) = stageVetoOf modelCallerWrite ∧
-    stageVetoOf (sites Gen.stages_session_Push) = stageVetoOf modelPusher ∧
-    [Gen.stages_peer_ServeConn, Gen.stages_peer_serveListener_accept, Gen.stages_peer_Dial, Gen.stages_peer_Dial_redial].map stageRows =
-      [[("postAccept", "global", "fail-return")], [("postAccept", "global", "fail-return")],
-       [("postDial", "global", "fail-return")], [("postDial", "global", "fail-return")]] ∧
-    [Gen.stages_session_closeLocked, Gen.stages_session_readDisconnected].map stageRows =
-      [[("postDisconnect", "global", "ignored")], [("postDisconnect", "global", "ignored")]] := by
+    stageVetoOf (sites (annot Gen.spaths_session_AsyncCall)) = stageVetoOf modelCallerWrite ∧
+    stageVetoOf (sites (annot Gen.spaths_session_Push)) = stageVetoOf modelPusher ∧
+    (watchedPaths.take 10).all (fun ps => (stageRows ps).all fun r => !r.2.2 || alwaysDecided ps r.1) = true ∧
+    [Gen.spaths_handlerCtx_bindCall, Gen.spaths_handlerCtx_bindPush, Gen.spaths_handlerCtx_bindReply,
+     Gen.spaths_session_startReadAndHandle, Gen.spaths_handlerCtx_handlePush].all (afterFailOnly isReturn) = true ∧
+    afterFailOnly (fun (e : PEv) => isReturn e || e.is "stage" "preWriteReply" || e.is "call" "writeReply" || e.is "flag" "set" ||
+      e.is "stage" "postWriteReply") Gen.spaths_handlerCtx_handleCall = true ∧
+    connMissing.all (· == []) = true ∧
+    [Gen.spaths_peer_ServeConn, Gen.spaths_peer_serveListener_accept, Gen.spaths_peer_Dial, Gen.spaths_peer_Dial_redial].map stageRows =
+      [[("postAccept", "global", true)], [("postAccept", "global", true)],
+       [("postDial", "global", true)], [("postDial", "global", true)]] ∧
+    [Gen.spaths_session_closeLocked, Gen.spaths_session_readDisconnected].map stageRows =
+      [[("postDisconnect", "global", false)], [("postDisconnect", "global", false)]] := by
   decide
 
 example : stageVetoOf modelCallee =
@@ -629,42 +676,61 @@ example : stageVetoOf modelCallerRead =
     [(.preReadHeader, some true), (.postReadReplyHeader, some true), (.preReadReplyBody, some true),
      (.postReadReplyBody, some true)] := by decide
 
-/-- the row of `Gen.stage_loops` for a stage function. -/
-def loopRow (fn : String) : Option (String × String × String × String × String × String × String × String) :=
-  Gen.stage_loops.find? fun r => r.1 == fn
+/-- the paths of a stage function (`Gen.stage_loop_paths`), each as `kind:name=outcome` tags, a
+    `return` with what it returns. -/
+def loopPaths (fn : String) : Option (List (List String)) :=
+  (Gen.stage_loop_paths.find? fun r => r.1 == fn).map fun r => r.2.map rtags
 
-/-- the loop shape `runStage` assumes: forward range over the receiver's list, the stage interface
-    asserted on each element, the asserted plugin's method invoked, the verdict tested at once and the
-    first non-OK verdict ends the loop AND the function — returned to the caller (`return v` …
-    `return nil`), or dropped when the function has no result (`return` … end). -/
-def earlyStop (iface method : String) (r : String × String × String × String × String × String × String × String) : Bool :=
-  r.2.1 == iface && r.2.2.1 == method && r.2.2.2.1 == "range $.plugins" &&
-  (r.2.2.2.2.1 == "!v.OK()" || r.2.2.2.2.1 == "v != nil") &&
-  ((r.2.2.2.2.2.1 == "return v" && r.2.2.2.2.2.2.1 == "return nil") ||
-   (r.2.2.2.2.2.1 == "return" && r.2.2.2.2.2.2.1 == "end"))
+/-- every type assertion of the function is on the loop variable. -/
+def assertsOnLoopVar (fn : String) : Bool :=
+  match Gen.stage_loop_paths.find? fun r => r.1 == fn with
+  | some r => r.2.all fun p => p.all fun (e : PEv) => e.kind != "assert" || e.detail == "rangeval"
+  | none => false
+
+/-- the path set `runStage` assumes, the loop run for zero or one plugin: no plugin → the tail;
+    a plugin that does not implement the stage interface → next plugin; one that does and says OK →
+    next plugin; one that does and says not OK → the function is left at once, with that very
+    verdict where the function has a result (`stop` = "return:<Method>()", `tail` = "return:nil"), or
+    by a bare return where it has none (`stop` = `tail` = "return:"). -/
+def earlyStop (method stop tail : String) : List (List String) :=
+  [[tail],
+   ["range:$.plugins", "assert:" ++ method ++ "Plugin=fail", "loop:next", tail],
+   ["range:$.plugins", "assert:" ++ method ++ "Plugin=ok", "invoke:" ++ method ++ "=ok", "loop:next", tail],
+   ["range:$.plugins", "assert:" ++ method ++ "Plugin=ok", "invoke:" ++ method ++ "=fail", stop]]
+
+/-- the two stage functions without a result. -/
+def isVoid : Stage → Bool
+  | .preWriteReply | .postWriteReply => true
+  | _ => false
+
+/-- the expected path set of the stage function of `s`. -/
+def expectedLoop (s : Stage) : List (List String) :=
+  if isVoid s then earlyStop (goMethod s) "return:" "return:"
+  else earlyStop (goMethod s) ("return:" ++ goMethod s ++ "()") "return:nil"
+
+def loopOk (fn : String) (expected : List (List String)) : Bool :=
+  match loopPaths fn with
+  | some ps => SrcFlow.sameSet ps expected && assertsOnLoopVar fn
+  | none => false
 
 /-- **Every stage function has the loop `runStage` models (tie A).** For each of the sixteen
-    per-message stages `s`, the function `goName s` of plugin.go iterates `p.plugins` in order,
-    type-asserts `<goMethod s>Plugin`, calls `<goMethod s>` on the plugins that implement it, and
-    returns at the first non-OK verdict (returning that verdict where the function has a result) —
-    the shape of `runStage`: in order, only the implementers, stop at the first non-OK. The same
-    holds for the connection-level `postAccept`, `postDial` (both with a deferred `recover`) and
-    `postDisconnect`. A loop that continues after a non-OK verdict, iterates another list or in
-    another order, or swallows the verdict changes the regenerated row and this theorem no longer
-    checks. -/
+    per-message stages `s`, the control-flow paths of the function `goName s` of plugin.go (the loop
+    run for no plugin or for one) are exactly: iterate `p.plugins` in order, type-assert
+    `<goMethod s>Plugin` on the loop variable, call `<goMethod s>` on the plugins that implement it, go
+    on to the next plugin after an OK verdict, and leave the function at the first non-OK verdict
+    (returning that verdict where the function has a result) — the shape of `runStage`: in order,
+    only the implementers, stop at the first non-OK. The same holds for the connection-level
+    `postAccept`, `postDial` (both with a deferred `recover`) and `postDisconnect`. A loop that continues
+    after a non-OK verdict, breaks after an OK one, iterates another list, or swallows the verdict
+    changes the regenerated paths and this theorem no longer checks; a loop flattened with
+    `continue`, an inverted test or a renamed variable does not. -/
 theorem C09_stage_loops :
     Gen.stages_missing = [] ∧
-    Stage.all.all (fun s => match loopRow (goName s) with
-      | some r => earlyStop (goMethod s ++ "Plugin") (goMethod s) r
-      | none => false) = true ∧
-    -- functions with a result return the verdict itself
-    (Stage.all.filter fun s => (loopRow (goName s)).any fun r => r.2.2.2.2.2.1 == "return") =
-      [.preWriteReply, .postWriteReply] ∧
+    Stage.all.all (fun s => loopOk (goName s) (expectedLoop s)) = true ∧
     [("postAccept", "PostAccept", "recover"), ("postDial", "PostDial", "recover"), ("postDisconnect", "PostDisconnect", "none")].all
-      (fun c => match loopRow c.1 with
-        | some r => earlyStop (c.2.1 ++ "Plugin") c.2.1 r && r.2.2.2.2.2.1 == "return v" && r.2.2.2.2.2.2.2 == c.2.2
-        | none => false) = true ∧
-    Gen.stage_loops.length = Gen.stage_funcs.length := by
+      (fun c => loopOk c.1 (earlyStop c.2.1 ("return:" ++ c.2.1 ++ "()") "return:nil") &&
+        Gen.stage_recover.contains (c.1, c.2.2)) = true ∧
+    Gen.stage_loop_paths.length = Gen.stage_funcs.length := by
   decide
 
 /-- non-vacuity: the model's `runStage` stops at the first non-OK verdict and returns it. -/
